@@ -1,4 +1,185 @@
-import Model.Sim.PySim
+import Proofs.Lemmas.PySimOps
+import Proofs.Lemmas.EvalOrder
+import Proofs.Lemmas.Fast
+/-!
+# C01 — `pyrtl.Simulation` computes the documented cycle semantics
+
+Property theorems only (helper lemmas live in `Proofs/Lemmas`).
+`PySim` is the impl model of `simulation.py` (its per-op arithmetic is *regenerated from the source*
+into `Model/Gen/SimpleFunc.lean` on every run); `Spec` is the documented op table.
+-/
 namespace Pyrtl.C01
-theorem placeholder : True := trivial
+open Pyrtl Pyrtl.PySim
+
+/-- every argument value fits its wire's bitwidth -/
+def InRange (args : List (Nat × Nat)) : Prop := ∀ p ∈ args, p.2 < 2 ^ p.1
+
+/-- the argument list as Python ints -/
+def castArgs (args : List (Nat × Nat)) : List (Nat × Int) := args.map fun p => (p.1, (p.2 : Int))
+
+theorem exec_zero (dw : Nat) : (Gen.SimpleFunc.sanitize 0 (mask dw)).toNat = 0 := by
+  have := san_nat 0 dw; simpa using this
+
+local macro "shape_other" : tactic =>
+  `(tactic| simp [castArgs, PySim.exec, PySim.rawExec, Spec.comb, exec_zero])
+
+/-- **Per-net semantics, every op, all widths, all in-range values**: what `_execute` followed by
+    `_sanitize` stores equals the documented integer function truncated to the destination width.
+    (`~x & mask`, `(l - r) & mask` on a negative difference, the carry-out of `+`, mux polarity,
+    `c` argument order and repeated / reversed `s` indices are all settled here.)  For an argument
+    list of the wrong length both sides are 0 (such nets are rejected by `sanity_check`, C10). -/
+theorem pysim_exec_eq_spec (op : Op) (args : List (Nat × Nat)) (dw : Nat) (hr : InRange args) :
+    PySim.exec op (castArgs args) dw = Spec.comb op args dw := by
+  cases op with
+  | concat => exact exec_concat args dw hr
+  | select idx =>
+    rcases args with _ | ⟨⟨w1, a1⟩, _ | ⟨⟨w2, a2⟩, rest⟩⟩
+    · shape_other
+    · exact exec_select idx w1 a1 dw
+    · shape_other
+  | w =>
+    rcases args with _ | ⟨⟨w1, a1⟩, _ | ⟨⟨w2, a2⟩, rest⟩⟩
+    · shape_other
+    · exact exec_w w1 a1 dw
+    · shape_other
+  | inv =>
+    rcases args with _ | ⟨⟨w1, a1⟩, _ | ⟨⟨w2, a2⟩, rest⟩⟩
+    · shape_other
+    · exact exec_inv w1 a1 dw
+    · shape_other
+  | mux =>
+    rcases args with _ | ⟨⟨w1, a1⟩, _ | ⟨⟨w2, a2⟩, _ | ⟨⟨w3, a3⟩, _ | ⟨⟨w4, a4⟩, rest⟩⟩⟩⟩
+    · shape_other
+    · shape_other
+    · shape_other
+    · exact exec_mux w1 w2 w3 a1 a2 a3 dw
+    · shape_other
+  | reg => shape_other
+  | mread m => shape_other
+  | mwrite m => shape_other
+  | and =>
+    rcases args with _ | ⟨⟨w1, a1⟩, _ | ⟨⟨w2, a2⟩, _ | ⟨⟨w3, a3⟩, rest⟩⟩⟩
+    · shape_other
+    · shape_other
+    · exact exec_and w1 w2 a1 a2 dw
+    · shape_other
+  | or =>
+    rcases args with _ | ⟨⟨w1, a1⟩, _ | ⟨⟨w2, a2⟩, _ | ⟨⟨w3, a3⟩, rest⟩⟩⟩
+    · shape_other
+    · shape_other
+    · exact exec_or w1 w2 a1 a2 dw
+    · shape_other
+  | xor =>
+    rcases args with _ | ⟨⟨w1, a1⟩, _ | ⟨⟨w2, a2⟩, _ | ⟨⟨w3, a3⟩, rest⟩⟩⟩
+    · shape_other
+    · shape_other
+    · exact exec_xor w1 w2 a1 a2 dw
+    · shape_other
+  | nand =>
+    rcases args with _ | ⟨⟨w1, a1⟩, _ | ⟨⟨w2, a2⟩, _ | ⟨⟨w3, a3⟩, rest⟩⟩⟩
+    · shape_other
+    · shape_other
+    · exact exec_nand w1 w2 a1 a2 dw
+    · shape_other
+  | add =>
+    rcases args with _ | ⟨⟨w1, a1⟩, _ | ⟨⟨w2, a2⟩, _ | ⟨⟨w3, a3⟩, rest⟩⟩⟩
+    · shape_other
+    · shape_other
+    · exact exec_add w1 w2 a1 a2 dw
+    · shape_other
+  | sub =>
+    rcases args with _ | ⟨⟨w1, a1⟩, _ | ⟨⟨w2, a2⟩, _ | ⟨⟨w3, a3⟩, rest⟩⟩⟩
+    · shape_other
+    · shape_other
+    · exact exec_sub w1 w2 a1 a2 dw
+    · shape_other
+  | mul =>
+    rcases args with _ | ⟨⟨w1, a1⟩, _ | ⟨⟨w2, a2⟩, _ | ⟨⟨w3, a3⟩, rest⟩⟩⟩
+    · shape_other
+    · shape_other
+    · exact exec_mul w1 w2 a1 a2 dw
+    · shape_other
+  | lt =>
+    rcases args with _ | ⟨⟨w1, a1⟩, _ | ⟨⟨w2, a2⟩, _ | ⟨⟨w3, a3⟩, rest⟩⟩⟩
+    · shape_other
+    · shape_other
+    · exact exec_lt w1 w2 a1 a2 dw
+    · shape_other
+  | gt =>
+    rcases args with _ | ⟨⟨w1, a1⟩, _ | ⟨⟨w2, a2⟩, _ | ⟨⟨w3, a3⟩, rest⟩⟩⟩
+    · shape_other
+    · shape_other
+    · exact exec_gt w1 w2 a1 a2 dw
+    · shape_other
+  | eq =>
+    rcases args with _ | ⟨⟨w1, a1⟩, _ | ⟨⟨w2, a2⟩, _ | ⟨⟨w3, a3⟩, rest⟩⟩⟩
+    · shape_other
+    · shape_other
+    · exact exec_eq w1 w2 a1 a2 dw
+    · shape_other
+
+/-- Every value `Simulation` stores for a net destination lies in `[0, 2^bitwidth)`. -/
+theorem pysim_value_lt (op : Op) (args : List (Nat × Int)) (dw : Nat) :
+    PySim.exec op args dw < 2 ^ dw := by
+  unfold PySim.exec
+  rw [san_int]
+  have hpos : (0 : Int) < ((2 ^ dw : Nat) : Int) := by exact_mod_cast Nat.two_pow_pos dw
+  have h1 := Int.emod_lt_of_pos (PySim.rawExec op args) hpos
+  have h0 := Int.emod_nonneg (PySim.rawExec op args) (Int.ne_of_gt hpos)
+  omega
+
+/-- `_execute` of a whole net (memory reads included) equals the documented net function whenever
+    the argument values fit the argument wires. -/
+theorem pysim_netFun_eq_spec (b : Block) (st : State) (n : Net) (vals : List Nat)
+    (hr : InRange ((n.args.map b.width).zip vals)) :
+    PySim.netFun b st n vals = Pyrtl.netFun b st n vals := by
+  unfold PySim.netFun Pyrtl.netFun
+  cases hop : n.op with
+  | mread m => simp only []; exact san_nat _ _
+  | _ =>
+    simp only []
+    rw [show (n.args.map b.width).zip (vals.map Int.ofNat) = castArgs ((n.args.map b.width).zip vals) by
+      simp [castArgs, List.zip_map_right]]
+    exact pysim_exec_eq_spec _ _ _ hr
+
+/-- **Whichever way ties are broken**: `Simulation` evaluates `ordered_nets` in whatever dependency
+    order `Block.__iter__` produced; any two dependency orders of the same nets give every wire the
+    same value (so the traced values do not depend on set/dict iteration order). -/
+theorem pysim_order_independent (b : Block) (st : State) (o1 o2 : List Net) (e : Env)
+    (hp : ∀ n, n ∈ o1 ↔ n ∈ o2) (h1 : isTopo o1 = true) (h2 : isTopo o2 = true) :
+    ∀ w, PySim.execNets b st o1 e w = PySim.execNets b st o2 e w :=
+  eval_any_topo_order _ o1 o2 e hp (isTopo_sound o1 h1) (isTopo_sound o2 h2)
+
+/-- The same for the specification evaluator, plus: the value it computes is *the* consistent
+    valuation (every net destination equals the documented function of its arguments), which
+    exists and is unique for every netlist that has a dependency order. -/
+theorem spec_order_independent (b : Block) (st : State) (o1 o2 : List Net) (e : Env)
+    (hp : ∀ n, n ∈ o1 ↔ n ∈ o2) (h1 : isTopo o1 = true) (h2 : isTopo o2 = true) :
+    ∀ w, evalNets b st o1 e w = evalNets b st o2 e w :=
+  eval_any_topo_order _ o1 o2 e hp (isTopo_sound o1 h1) (isTopo_sound o2 h2)
+
+theorem spec_consistent_exists_unique (b : Block) (st : State) (order : List Net) (e : Env)
+    (h : isTopo order = true) :
+    Consistent (Pyrtl.netFun b st) order e (evalNets b st order e) ∧
+    ∀ v, Consistent (Pyrtl.netFun b st) order e v → ∀ w, v w = evalNets b st order e w :=
+  ⟨evalSeq_consistent _ order e (isTopo_sound order h),
+   fun v hv => consistent_unique _ order e v _ (isTopo_sound order h) hv
+     (evalSeq_consistent _ order e (isTopo_sound order h))⟩
+
+/-- The hash-map evaluator the compiled driver runs computes exactly `evalSeq` (so correspondence
+    runs exercise the function the theorems are about). -/
+theorem driver_evaluator_refines (f : Net → List Nat → Nat) (base : Env) (ns : List Net) :
+    Fast.look (Fast.evalSeq f base ns {}) base = evalSeq f ns base := by
+  rw [Fast.evalSeq_look]
+  congr 1
+  funext x
+  simp [Fast.look]
+
+-- non-vacuity: a concrete in-range argument list
+example : InRange [(3, 5), (2, 3)] := by
+  intro p hp; simp at hp; rcases hp with rfl | rfl <;> decide
+
+-- the witness that decides subtraction order and two's-complement wrap: 2 - 5 at width 4 is 13
+example : PySim.exec .sub (castArgs [(3, 2), (3, 5)]) 4 = 13 := by decide
+
 end Pyrtl.C01
